@@ -342,7 +342,7 @@ def build_generator(scratch, gen):
     return out
 
 
-def generate(scratch, gen, universe, outdir, registry=None, extra_files=None):
+def generate(scratch, gen, universe, outdir, registry=None, extra_files=None, resources=None):
     """Emit the manifest of `universe`, run the generator of the current tree into outdir/gen."""
     emit = build_emit(scratch)
     genbin = build_generator(scratch, gen)
@@ -350,6 +350,8 @@ def generate(scratch, gen, universe, outdir, registry=None, extra_files=None):
     cmd = [emit, "-universe", universe, "-gen", gen, "-pkgroot", PKGROOT, "-manifest", manifest]
     if registry:
         cmd += ["-registry", registry]
+    if resources:
+        cmd += ["-resources", resources]
     run(cmd, timeout=120)
     target = os.path.join(outdir, "gen")
     if extra_files:
@@ -379,7 +381,8 @@ def generate(scratch, gen, universe, outdir, registry=None, extra_files=None):
     return target
 
 
-def build_with_bindings(scratch, gen, harness, universe, overlay=None):
+def build_with_bindings(scratch, gen, harness, universe, overlay=None, resources=False, race=False):
     mod = make_module(scratch, gen, harness, name="%s-%s-%s" % (harness, universe, gen))
-    generate(scratch, gen, universe, mod, registry=os.path.join(mod, "zz_registry.go"))
-    return go_build(mod, os.path.join(mod, "h"), overlay=overlay)
+    generate(scratch, gen, universe, mod, registry=os.path.join(mod, "zz_registry.go"),
+             resources=os.path.join(mod, "zz_resources.go") if resources else None)
+    return go_build(mod, os.path.join(mod, "h"), overlay=overlay, race=race)
